@@ -376,6 +376,12 @@ func c12r2(p *Program, r *Report) {
 			if isCallTo(info, c, "encBigInt2C") && strings.Contains(exprStr(c.Args[0]), "UnscaledBig()") {
 				viaEnc = true
 			}
+			if calleeName(info, c) == "binary.(bigEndian).PutUint32" && len(c.Args) == 2 {
+				dst := strings.ReplaceAll(exprStr(c.Args[0]), " ", "")
+				if (dst == "buf[0:4]" || dst == "buf[:4]" || dst == "buf") && strings.Contains(exprStr(c.Args[1]), "Scale()") {
+					scale4 = true
+				}
+			}
 			return true
 		})
 		r.Check(scale4 && unscaledAt4 && viaEnc, fi.Decl, "marshalDecimal is [4-byte scale][two's-complement unscaled value]", "encInt(scale) at 0, encBigInt2C(unscaled) at 4", "a decimal is not encoded as the 4-byte big-endian scale followed by the varint of the unscaled value")
@@ -572,13 +578,29 @@ func c12r3(p *Program, r *Report) {
 	}
 	// date decode is a big-endian uint32
 	if fi := r.NeedFunc("unmarshalDate"); fi != nil {
-		n := 0
-		for _, c := range callsIn(fi.Decl.Body) {
-			if calleeName(fi.Pkg.TypesInfo, c) == "binary.(bigEndian).Uint32" {
-				n++
-			}
+		n, le := 0, 0
+		for _, fn := range append([]*FuncInfo{fi}, p.privateCallees(fi)...) {
+			ast.Inspect(fn.Decl.Body, func(x ast.Node) bool {
+				if e, ok := x.(ast.Expr); ok {
+					if d, ok := decodingOf(fn.Pkg.TypesInfo, e); ok && d.Width == 4 {
+						if d.BigEndian {
+							n++
+						} else {
+							le++
+						}
+						return false
+					}
+				}
+				return true
+			})
 		}
-		r.Check(n == 2, fi.Decl, "unmarshalDate reads the day number big-endian", fmt.Sprintf("BigEndian.Uint32 x%d", n), "unmarshalDate does not read the 4-byte day number big-endian in both targets")
+		if le > 0 {
+			r.Bad(fi.Decl, "unmarshalDate reads the day number big-endian", "the 4-byte day number is not read big-endian")
+		} else if n == 0 {
+			r.Unresolved("unmarshalDate: no 4-byte decode of the day number found")
+		} else {
+			r.OK(fi.Decl, "unmarshalDate reads the day number big-endian", fmt.Sprintf("%d big-endian 4-byte read(s)", n))
+		}
 	}
 }
 
@@ -630,76 +652,197 @@ func c12r4(p *Program, r *Report) {
 	} else {
 		return
 	}
+	// the functions that implement a codec together with the private helpers it was split into
+	withHelpers := func(fi *FuncInfo) []*FuncInfo { return append([]*FuncInfo{fi}, p.privateCallees(fi)...) }
+	// time.Time -> milliseconds: Unix()*1e3 + Nanosecond()/1e6 and UnixMilli() count with floor; UnixNano()/1e6
+	// truncates towards zero (and overflows outside 1678..2262)
+	millisForms := func(fns []*FuncInfo) (okForms, trunc int, where ast.Node) {
+		for _, fn := range fns {
+			ast.Inspect(fn.Decl.Body, func(x ast.Node) bool {
+				switch e := x.(type) {
+				case *ast.CallExpr:
+					if calleeName(fn.Pkg.TypesInfo, e) == "time.(Time).UnixMilli" {
+						okForms++
+					}
+				case *ast.BinaryExpr:
+					if e.Op == token.ADD && isMillisOfTime(e) {
+						okForms++
+						return false
+					}
+					if e.Op == token.QUO {
+						found := false
+						ast.Inspect(e.X, func(y ast.Node) bool {
+							if c, ok := y.(*ast.CallExpr); ok && calleeName(fn.Pkg.TypesInfo, c) == "time.(Time).UnixNano" {
+								found = true
+							}
+							return true
+						})
+						if found {
+							trunc++
+							where = e
+						}
+					}
+				}
+				return true
+			})
+		}
+		return
+	}
 	if fi := r.NeedFunc("marshalDate"); fi != nil {
 		info := fi.Pkg.TypesInfo
 		n := 0
-		okAll := true
+		var stray []string
+		returnsEncDate := func(fn *FuncInfo) bool {
+			okR, any := true, false
+			for _, ex := range p.GraphOf(fn).Exits() {
+				rs, ok := ex.Node.(*ast.ReturnStmt)
+				if !ok || len(rs.Results) == 0 {
+					continue
+				}
+				if c, ok := ast.Unparen(rs.Results[0]).(*ast.CallExpr); ok && isCallTo(fn.Pkg.TypesInfo, c, "encDate") {
+					any = true
+				} else if !isNil(fn.Pkg.TypesInfo, rs.Results[0]) {
+					okR = false
+				}
+			}
+			return okR && any
+		}
 		for _, ex := range p.GraphOf(fi).Exits() {
 			rs, ok := ex.Node.(*ast.ReturnStmt)
 			if !ok || len(rs.Results) != 1 {
 				continue
 			}
 			if c, ok := rs.Results[0].(*ast.CallExpr); ok {
-				if isCallTo(info, c, "encDate") {
+				switch {
+				case isCallTo(info, c, "encDate"):
 					n++
-				} else if calleeName(info, c) != "Marshaler.MarshalCQL" {
-					okAll = false
+				case calleeName(info, c) == "Marshaler.MarshalCQL":
+				default:
+					if fn := calleeOf(info, c); fn != nil && p.FuncOf(fn) != nil && returnsEncDate(p.FuncOf(fn)) {
+						n++
+					} else if isCallTo(info, c, "encInt", "encBigInt", "encShort") {
+						stray = append(stray, exprStr(c))
+					}
 				}
 			}
 		}
-		r.Check(n >= 4 && okAll, fi.Decl, "marshalDate encodes every source type through encDate", fmt.Sprintf("%d returns", n), "a source type of marshalDate bypasses encDate (floor / origin / range)")
-		// timestamps in ms: Unix()*1e3 + Nanosecond()/1e6
-		ms := 0
-		ast.Inspect(fi.Decl.Body, func(x ast.Node) bool {
-			if as, ok := x.(*ast.AssignStmt); ok && len(as.Rhs) == 1 && isMillisOfTime(as.Rhs[0]) {
-				ms++
-			}
-			return true
-		})
-		r.Check(ms == 3, fi.Decl, "marshalDate converts time.Time to milliseconds", fmt.Sprintf("Unix()*1e3 + Nanosecond()/1e6 x%d", ms), "a time.Time source of marshalDate is not converted to milliseconds since the epoch")
+		if len(stray) > 0 {
+			r.Bad(fi.Decl, "marshalDate encodes every source type through encDate", "a source type of marshalDate is encoded by "+strings.Join(stray, ", ")+", bypassing encDate (floor / origin / range)")
+		} else if n == 0 {
+			r.Unresolved("marshalDate: no return goes through encDate")
+		} else {
+			r.OK(fi.Decl, "marshalDate encodes every source type through encDate", fmt.Sprintf("%d returns", n))
+		}
+		okF, tr, where := millisForms(withHelpers(fi))
+		if tr > 0 {
+			r.Bad(where, "marshalDate converts time.Time to milliseconds with floor", "a time.Time is converted with UnixNano()/k, which truncates towards zero: an instant before 1970 with a sub-millisecond part lands one millisecond (and possibly one day) late, and years outside 1678..2262 overflow")
+		} else if okF == 0 {
+			r.Unresolved("marshalDate: no recognised time.Time -> milliseconds conversion (Unix()*1e3+Nanosecond()/1e6 or UnixMilli())")
+		} else {
+			r.OK(fi.Decl, "marshalDate converts time.Time to milliseconds with floor", fmt.Sprintf("%d conversion(s): Unix()*1e3+Nanosecond()/1e6 or UnixMilli()", okF))
+		}
 	}
 	if fi := r.NeedFunc("unmarshalDate"); fi != nil {
-		n := 0
-		ast.Inspect(fi.Decl.Body, func(x ast.Node) bool {
-			if as, ok := x.(*ast.AssignStmt); ok && len(as.Rhs) == 1 {
-				s := strings.ReplaceAll(exprStr(as.Rhs[0]), " ", "")
-				if s == "(int64(current)-int64(origin))*millisecondsInADay" {
-					n++
+		// (days - 2^31) * millisecondsInADay somewhere in unmarshalDate or its helpers
+		good, bad := 0, ""
+		for _, fn := range withHelpers(fi) {
+			finfo := fn.Pkg.TypesInfo
+			constOf := func(e ast.Expr) (int64, bool) {
+				if k, ok := constInt(finfo, stripAllConv(finfo, e)); ok {
+					return k, true
 				}
-			}
-			if vs, ok := x.(*ast.ValueSpec); ok && len(vs.Names) == 1 && vs.Names[0].Name == "origin" && len(vs.Values) == 1 {
-				if k, ok := constInt(fi.Pkg.TypesInfo, vs.Values[0]); ok && k == 1<<31 {
-					n += 10
+				if id, ok := stripAllConv(finfo, e).(*ast.Ident); ok {
+					var val int64
+					found := false
+					ast.Inspect(fn.Decl.Body, func(y ast.Node) bool {
+						if vs, ok := y.(*ast.ValueSpec); ok {
+							for i, nm := range vs.Names {
+								if nm.Name == id.Name && i < len(vs.Values) {
+									if k, ok := constInt(finfo, vs.Values[i]); ok {
+										val, found = k, true
+									}
+								}
+							}
+						}
+						return true
+					})
+					return val, found
 				}
+				return 0, false
 			}
-			return true
-		})
-		r.Check(n == 22, fi.Decl, "unmarshalDate: (days - 2^31) * ms/day, unsigned day number", "origin 1<<31, (int64(current)-int64(origin))*millisecondsInADay x2", "unmarshalDate does not subtract the 2^31 origin from the unsigned day number in both targets")
+			ast.Inspect(fn.Decl.Body, func(x ast.Node) bool {
+				m, ok := x.(*ast.BinaryExpr)
+				if !ok || m.Op != token.MUL {
+					return true
+				}
+				var other ast.Expr
+				switch {
+				case exprStr(ast.Unparen(m.Y)) == "millisecondsInADay":
+					other = m.X
+				case exprStr(ast.Unparen(m.X)) == "millisecondsInADay":
+					other = m.Y
+				default:
+					return true
+				}
+				sub, ok := ast.Unparen(other).(*ast.BinaryExpr)
+				if !ok || sub.Op != token.SUB {
+					return true
+				}
+				if k, ok := constOf(sub.Y); ok {
+					if k == 1<<31 {
+						good++
+					} else {
+						bad = fmt.Sprintf("%s subtracts %d", exprStr(m), k)
+					}
+				}
+				return true
+			})
+		}
+		if bad != "" {
+			r.Bad(fi.Decl, "unmarshalDate: (days - 2^31) * ms/day", bad+", not the 2^31 origin of the CQL date type")
+		} else if good == 0 {
+			r.Unresolved("unmarshalDate: no `(days - 2^31) * millisecondsInADay` computation found")
+		} else {
+			r.OK(fi.Decl, "unmarshalDate: (days - 2^31) * ms/day", fmt.Sprintf("%d conversion(s)", good))
+		}
 	}
 	if fi := r.NeedFunc("marshalTimestamp"); fi != nil {
-		ok := false
-		ast.Inspect(fi.Decl.Body, func(x ast.Node) bool {
-			if as, isA := x.(*ast.AssignStmt); isA && len(as.Rhs) == 1 && isMillisOfTime(as.Rhs[0]) {
-				ok = true
-			}
-			return true
-		})
-		r.Check(ok, fi.Decl, "marshalTimestamp is milliseconds since the epoch", "Unix()*1e3 + Nanosecond()/1e6", "a time.Time timestamp is not converted to milliseconds since the epoch")
+		okF, tr, where := millisForms(withHelpers(fi))
+		if tr > 0 {
+			r.Bad(where, "marshalTimestamp is milliseconds since the epoch, counted with floor", "a time.Time timestamp is converted with UnixNano()/k, which truncates towards zero and overflows outside 1678..2262")
+		} else if okF == 0 {
+			r.Unresolved("marshalTimestamp: no recognised time.Time -> milliseconds conversion")
+		} else {
+			r.OK(fi.Decl, "marshalTimestamp is milliseconds since the epoch, counted with floor", "Unix()*1e3+Nanosecond()/1e6 or UnixMilli()")
+		}
 	}
 	if fi := r.NeedFunc("unmarshalTimestamp"); fi != nil {
 		var sec, nsec string
-		ast.Inspect(fi.Decl.Body, func(x ast.Node) bool {
-			if as, isA := x.(*ast.AssignStmt); isA && len(as.Lhs) == 1 && len(as.Rhs) == 1 {
-				switch exprStr(as.Lhs[0]) {
-				case "sec":
-					sec = strings.ReplaceAll(exprStr(as.Rhs[0]), " ", "")
-				case "nsec":
-					nsec = strings.ReplaceAll(exprStr(as.Rhs[0]), " ", "")
+		viaLib := false
+		for _, fn := range withHelpers(fi) {
+			ast.Inspect(fn.Decl.Body, func(x ast.Node) bool {
+				if as, isA := x.(*ast.AssignStmt); isA && len(as.Lhs) == 1 && len(as.Rhs) == 1 {
+					switch exprStr(as.Lhs[0]) {
+					case "sec":
+						sec = strings.ReplaceAll(exprStr(as.Rhs[0]), " ", "")
+					case "nsec":
+						nsec = strings.ReplaceAll(exprStr(as.Rhs[0]), " ", "")
+					}
 				}
-			}
-			return true
-		})
-		r.Check(sec == "x/1000" && nsec == "(x-sec*1000)*1000000", fi.Decl, "unmarshalTimestamp splits milliseconds into seconds and nanoseconds", sec+"; "+nsec, "milliseconds are not split as sec = x/1000, nsec = (x - sec*1000)*1e6: "+sec+"; "+nsec)
+				if c, ok := x.(*ast.CallExpr); ok && calleeName(fn.Pkg.TypesInfo, c) == "time.UnixMilli" {
+					viaLib = true
+				}
+				return true
+			})
+		}
+		switch {
+		case viaLib:
+			r.OK(fi.Decl, "unmarshalTimestamp converts milliseconds to a time", "time.UnixMilli")
+		case sec == "" || nsec == "":
+			r.Unresolved("unmarshalTimestamp: neither time.UnixMilli nor a sec/nsec split found")
+		default:
+			r.Check(sec == "x/1000" && nsec == "(x-sec*1000)*1000000", fi.Decl, "unmarshalTimestamp converts milliseconds to a time", sec+"; "+nsec, "milliseconds are not split as sec = x/1000, nsec = (x - sec*1000)*1e6: "+sec+"; "+nsec)
+		}
 	}
 	if fi := r.NeedFunc("marshalTime"); fi != nil {
 		ok := false
@@ -713,8 +856,33 @@ func c12r4(p *Program, r *Report) {
 }
 
 func isMillisOfTime(e ast.Expr) bool {
-	s := strings.ReplaceAll(exprStr(e), " ", "")
-	return strings.Contains(s, ".UTC().Unix()*1e3)+int64(") && strings.Contains(s, ".UTC().Nanosecond()/1e6)")
+	b, ok := ast.Unparen(e).(*ast.BinaryExpr)
+	if !ok || b.Op != token.ADD {
+		return false
+	}
+	has := func(x ast.Expr, method string, op token.Token, consts ...string) bool {
+		found := false
+		ast.Inspect(x, func(n ast.Node) bool {
+			be, ok := n.(*ast.BinaryExpr)
+			if !ok || be.Op != op {
+				return true
+			}
+			l := strings.ReplaceAll(exprStr(be.X), " ", "")
+			rr := strings.ReplaceAll(exprStr(be.Y), " ", "")
+			if strings.HasSuffix(l, "."+method+"()") {
+				for _, c := range consts {
+					if rr == c {
+						found = true
+					}
+				}
+			}
+			return true
+		})
+		return found
+	}
+	secs := func(x ast.Expr) bool { return has(x, "Unix", token.MUL, "1e3", "1000") }
+	nanos := func(x ast.Expr) bool { return has(x, "Nanosecond", token.QUO, "1e6", "1000000") }
+	return secs(b.X) && nanos(b.Y) || secs(b.Y) && nanos(b.X)
 }
 
 // ---------- R5: framing order ----------
@@ -864,7 +1032,8 @@ func c12r5(p *Program, r *Report) {
 					rest = append(rest, it)
 				}
 			}
-			r.Check(nulls >= 1 && strings.Join(rest, " ") == "int(n) bytes(data)", loop, fmt.Sprintf("marshalTuple loop %d element framing", n), strings.Join(seq, " "), "a tuple element is framed as `"+strings.Join(seq, " ")+"`, not [int length][bytes] with -1 for null")
+			rs := strings.Join(rest, " ")
+			r.Check(nulls >= 1 && rs == "int(n) bytes(data)" || rs == "lenbytes(data)", loop, fmt.Sprintf("marshalTuple loop %d element framing", n), strings.Join(seq, " "), "a tuple element is framed as `"+strings.Join(seq, " ")+"`, not [int length][bytes] with -1 for null")
 			return true
 		})
 		if n != 3 {
